@@ -8,6 +8,7 @@ package harness
 import (
 	"fmt"
 	"os"
+	"path/filepath"
 	"strconv"
 	"strings"
 	"time"
@@ -24,6 +25,7 @@ type c06Scen struct {
 	// is a later one; baseSeed != 0 replaces the base seed of run 1 (seeds near 2^64: the failing case's own seed wraps)
 	passFirst int
 	baseSeed  uint64
+	debugvis  bool // both runs are made with -rapid.debugvis
 }
 
 func c06Prog(sc c06Scen) *LazyProgram {
@@ -41,6 +43,21 @@ func c06Prog(sc c06Scen) *LazyProgram {
 				x := rapid.Int16().Draw(t, "x")
 				y := rapid.SliceOfN(rapid.Uint8(), 0, 3).Draw(t, "y")
 				key = fmt.Sprint(x, y)
+			case "custom-fails-before-its-first-draw":
+				// the failure is raised by a generator function before it has drawn anything: the recording ends
+				// with groups that were opened and never got any data
+				g := rapid.Custom(func(it *rapid.T) int {
+					key = "nodraw-in-custom"
+					e.cur.Draws = key
+					for _, c := range sc.chunks {
+						it.Log(c)
+					}
+					e.Do(it, "body", key)
+					return rapid.Int().Draw(it, "x")
+				})
+				_ = rapid.Bool().Draw(t, "first")
+				g.Draw(t, "g")
+				return
 			case "steps":
 				// a state machine: the invariant fails when two steps have been made. The failing call is preceded by
 				// points at which rapid itself looks at the failure state of the T (start of Repeat, every action)
@@ -110,7 +127,15 @@ func c06RunAs(c *Ctx, sc c06Scen, seed uint64, prop string) {
 		}
 		c.Violate(Violation{Sig: prop + " " + clause, Detail: detail + "\nscenario: " + desc, Replay: replay})
 	}
-	cfg := Config{Checks: 3 + sc.passFirst, Seed: seed, ShrinkMS: 40, Name: sc.name}
+	cfg := Config{Checks: 3 + sc.passFirst, Seed: seed, ShrinkMS: 40, Name: sc.name, DebugVis: sc.debugvis}
+	if sc.debugvis {
+		defer func() {
+			vis, _ := filepath.Glob("vis-*.html")
+			for _, f := range vis {
+				os.Remove(f)
+			}
+		}()
+	}
 	if sc.baseSeed != 0 {
 		cfg.Seed = sc.baseSeed
 	}
@@ -312,6 +337,13 @@ func c06Units(tier string, seed int64) []Unit {
 			scens = append(scens, c06Scen{name: "TestWrap", chunks: []string{"plain line"}, size: "few", kind: BFatalA, passFirst: k, baseSeed: ^uint64(0) - d})
 		}
 	}
+	// with the shrinker's visualization switched on (-rapid.debugvis), for every program shape
+	for _, sz := range []string{"empty", "one", "few", "steps", "custom-fails-before-its-first-draw"} {
+		for _, k := range []Beh{BFatalA, BPanicStr, BErrorf} {
+			scens = append(scens, c06Scen{name: "TestVis", chunks: []string{"plain line"}, size: sz, kind: k, debugvis: true})
+		}
+	}
+	scens = append(scens, c06Scen{name: "TestNoVis", chunks: []string{"plain line"}, size: "custom-fails-before-its-first-draw", kind: BFatalA})
 	const per = 12
 	for i := 0; i < len(scens); i += per {
 		lo, hi := i, min(i+per, len(scens))
